@@ -77,17 +77,28 @@ def judge(it, r, ref, meta):
             msg = same_result(r, ref, meta)
         if msg:
             return f"ended successfully with a wrong/truncated result ({'fault fired' if fired else 'fault not fired'}): {msg}", "truncated"
+        if fired and kind == "spillw":
+            # a failed spill write whose data was evidently not needed (complete, correct result): counted, not condemned
+            return None, "ok_exact_after_failed_spill_write"
         if fired and kind in EFFECTIVE and meta.get("must_err") and not r.get("may_stop_early_plan", False):
             return f"the injected {kind} fault fired and no early-stopping operator is above it, but the query ended Ok", "swallowed"
         return None, ("ok_fault_unreached" if not fired else "ok_after_fault_allowed")
     return f"unexpected outcome {oc}", "tool"
 
 
-def finding_key(r, cls, ref_ops):
+def finding_key(r, cls, ref_ops, it=None):
     """Narrow keys of genuine engine defects (known_findings.json); anything else raises."""
-    if cls == "panic" and "partition not used yet" in (r.get("err") or "") \
-            and any(o.startswith("NestedLoopJoinExec") for o in ref_ops) and any(o.startswith("RepartitionExec") for o in ref_ops):
+    nlj = [o for o in ref_ops if o.split(":")[0] == "NestedLoopJoinExec"]
+    repart = any(o.startswith("RepartitionExec") for o in ref_ops)
+    err = r.get("err") or ""
+    if cls == "panic" and nlj and repart and ("partition not used yet" in err or "inner future panicked during poll" in err):
         return "nlj-oom-fallback-reexecutes-left-child-with-repartition"
+    kind = ((it or {}).get("fault") or {}).get("kind")
+    if cls == "truncated" and kind == "deny" and r.get("counters", {}).get("spill_writes", 0) > 0 \
+            and any(o.split(":")[-1] in ("Left", "LeftSemi", "LeftAnti", "LeftMark", "Full") for o in nlj):
+        return "nlj-memory-limited-fallback-wrong-rows-left-emitting-join"
+    if cls == "hang" and kind == "disk_limit" and repart and ((it or {}).get("mem") or {}).get("limit"):
+        return "disk-limit-while-repartition-spills-hangs"
     return None
 
 
@@ -332,7 +343,7 @@ def run(ctx):
                   "meta": {k: v for k, v in meta.items() if k != "model_case"}, "observed": {k: v for k, v in r.items() if k != "rows"},
                   "observed_rows": r.get("rows"), "oracle": msg, "class": cls}
             ref_ops = (ref or res.get(meta.get("sqlref", ""), {})).get("plan_ops") or []
-            report_violation(ctx, rp, key=finding_key(r, cls, ref_ops))
+            report_violation(ctx, rp, key=finding_key(r, cls, ref_ops, it))
     if selftest:
         log("SELFTEST", json.dumps(dict(classes)))
         write_evidence(ctx, "fault_enumeration", {"evaluations": evaluations, "distinct_nontrivial": classes["selftest_swallow_detected"], "rule": "selftest", "samples": [dict(classes)]})
@@ -374,5 +385,5 @@ def replay(ctx):
     msg, cls = judge(it, r, ref, meta)
     if msg:
         report_violation(ctx, dict(rp, observed={k: v for k, v in r.items() if k != "rows"}, oracle=msg),
-                         key=finding_key(r, cls, (ref or {}).get("plan_ops") or []))
+                         key=finding_key(r, cls, (ref or {}).get("plan_ops") or [], it))
     write_evidence(ctx, "fault_enumeration", {"evaluations": 1, "distinct_nontrivial": 2, "rule": "replay of one recorded case", "samples": [{"item": it["id"], "class": cls}]})
